@@ -15,12 +15,15 @@ struct Prepared {
     rm_a: bool,
     rm_b: bool,
     add_c: bool,
+    /// `a` was removed and a NEW datum (id 3) with the same name was added in the open variant
+    readd_a: bool,
 }
 
 fn prepare() -> Prepared {
     let rm_a: bool = kani::any();
     let rm_b: bool = kani::any();
     let add_c: bool = kani::any();
+    let readd_a: bool = if rm_a { kani::any() } else { false };
     let mut to_remove = Vec::with_capacity(2);
     if rm_b {
         to_remove.push(DatumId::from(1));
@@ -32,18 +35,23 @@ fn prepare() -> Prepared {
     if add_c {
         to_add.push(DatumId::from(2));
     }
+    if readd_a {
+        to_add.push(DatumId::from(3));
+    }
     let mut c = DatumDefinitionCollection::<()>::default();
     c.push("a".to_owned(), ());
     c.push("b".to_owned(), ());
     // the collection may also hold a datum that was added and forgotten: never visible
     c.push(if add_c { "c".to_owned() } else { "d".to_owned() }, ());
+    // id 3: either the re-added `a`, or a datum that was added and forgotten again (never visible)
+    c.push("a".to_owned(), ());
     let b = GenericRecordDefinitionBuilder {
         datum_definitions: c,
         variants: vec![RecordVariant::new(RecordVariantId::from(0), vec![DatumId::from(0), DatumId::from(1)])],
         data_to_add: to_add,
         data_to_remove: to_remove,
     };
-    Prepared { b, rm_a, rm_b, add_c }
+    Prepared { b, rm_a, rm_b, add_c, readd_a }
 }
 
 fn pick() -> (u8, &'static str) {
@@ -53,7 +61,7 @@ fn pick() -> (u8, &'static str) {
 }
 
 fn expected(p: &Prepared, which: u8) -> bool {
-    match which { 0 => !p.rm_a, 1 => !p.rm_b, 2 => p.add_c, _ => false }
+    match which { 0 => !p.rm_a || p.readd_a, 1 => !p.rm_b, 2 => p.add_c, _ => false }
 }
 
 pub fn fmt_stub(_args: std::fmt::Arguments<'_>) -> String {
@@ -69,7 +77,8 @@ pub fn c12_lookup_by_name_in_current_variant() {
     let found = p.b.get_current_datum_definition_by_name(name);
     assert!(found.is_some() == expected(&p, which), "C12: lookup disagrees with last - removed + added");
     if let Some(d) = found {
-        assert!(d.id() == DatumId::from(which as usize), "C12: lookup returned another datum");
+        let want = if which == 0 && p.readd_a { 3 } else { which as usize };
+        assert!(d.id() == DatumId::from(want), "C12: lookup returned another datum");
     }
     kani::cover!(which == 0 && p.rm_a, "reachable: name of a datum pending removal");
     kani::cover!(which == 2 && p.add_c, "reachable: name of a pending addition");
@@ -81,10 +90,11 @@ pub fn c12_lookup_by_name_in_current_variant() {
 pub fn c12_current_data_is_last_minus_removed_plus_added() {
     let p = prepare();
     let which: u8 = kani::any();
-    kani::assume(which < 4);
+    kani::assume(which < 5);
     let x = DatumId::from(which as usize);
     let present = p.b.get_current_data().any(|d| d == x);
-    assert!(present == expected(&p, which), "C12: current data is not last - removed + added");
+    let want = match which { 0 => !p.rm_a, 1 => !p.rm_b, 2 => p.add_c, 3 => p.readd_a, _ => false };
+    assert!(present == want, "C12: current data is not last - removed + added");
 }
 
 #[kani::proof]
